@@ -152,8 +152,31 @@ func (k c21KB) id() string {
 }
 
 // returns ok=false for a malformed spec; may panic like ToKey does
-func c21ParseKB(s string) (c21KB, bool) {
+func (r *c21Runner) parseKB(s string) (c21KB, bool) {
 	f := strings.Split(s, "/")
+	if strings.HasPrefix(f[0], "@") {
+		// a builder kept alive in a slot, followed by Append groups
+		n, err := strconv.Atoi(f[0][1:])
+		if err != nil || n < 0 {
+			return c21KB{}, false
+		}
+		var groups [][]interface{}
+		for _, g := range f[1:] {
+			ps, ok := c21Parts(g)
+			if !ok {
+				return c21KB{}, false
+			}
+			groups = append(groups, ps)
+		}
+		k, ok := r.kbs[n]
+		if !ok {
+			return c21KB{}, false
+		}
+		for _, g := range groups {
+			k = k.Append(g...)
+		}
+		return k, true
+	}
 	if len(f) < 2 {
 		return c21KB{}, false
 	}
@@ -210,13 +233,42 @@ type c21Runner struct {
 	slotOwner map[string]string // slot id -> "plain" | "arr:<id>"
 	refSlot   map[string][]byte // plain slots (vars, dict entries)
 	refArr    map[string][][]byte
+	// builders / sub-dictionaries kept alive across operations
+	kbs    map[int]c21KB
+	kbKey  map[int][]byte
+	dicts  map[int]*c21Dict
+}
+
+type c21Dict struct {
+	d     *containerdb.DictDB // nil = GetDB returned nil
+	sem   c21KB               // semantic identity only (class + parts); its kb is never used
+	depth int
+}
+
+// semAppend extends the semantic identity without touching the real builder.
+func (k c21KB) semAppend(keys ...interface{}) c21KB {
+	n := c21KB{class: k.class, parts: append([][]byte{}, k.parts...)}
+	for _, x := range keys {
+		n.parts = append(n.parts, containerdb.ToBytes(x))
+	}
+	return n
+}
+
+// checkKept: a builder that is kept must keep building the key it built when it was made,
+// whatever was derived from its parent in the meantime.
+func (r *c21Runner) checkKept(o *Oracle) {
+	for n, k := range r.kbs {
+		now := k.kb.Build()
+		o.Check(bytes.Equal(now, r.kbKey[n]), "kept-builder-key-changed", "builder slot %d (%s) built %x when derived, builds %x now", n, k.id(), r.kbKey[n], now)
+	}
 }
 
 var c21GlobalKeys = map[string]string{} // built key -> slot id, across cases (bounded)
 
 func newC21Runner() *c21Runner {
 	return &c21Runner{st: &c21Store{m: map[string][]byte{}}, keyOwner: map[string]string{},
-		slotOwner: map[string]string{}, refSlot: map[string][]byte{}, refArr: map[string][][]byte{}}
+		slotOwner: map[string]string{}, refSlot: map[string][]byte{}, refArr: map[string][][]byte{},
+		kbs: map[int]c21KB{}, kbKey: map[int][]byte{}, dicts: map[int]*c21Dict{}}
 }
 
 func c21Show(v []byte) string {
@@ -350,6 +402,137 @@ func (r *c21Runner) Step(t []string, o *Oracle) string {
 		}
 		return "ok " + strings.Join(ss, ";")
 	}
+	switch t[0] {
+	case "kbnew":
+		if len(t) != 3 {
+			return "bad-op"
+		}
+		n, err := strconv.Atoi(t[1])
+		if err != nil || n < 0 {
+			return "bad-op"
+		}
+		k, ok := r.parseKB(t[2])
+		if !ok {
+			return "bad-op"
+		}
+		key := r.noteKey(k, o)
+		r.kbs[n] = k
+		r.kbKey[n] = append([]byte{}, key...)
+		o.Count("kept-builder-" + strings.SplitN(k.class, ":", 2)[0])
+		r.checkKept(o)
+		return hx(key)
+	case "dnew":
+		if len(t) != 4 {
+			return "bad-op"
+		}
+		n, err := strconv.Atoi(t[1])
+		d, err2 := strconv.ParseInt(t[3], 10, 64)
+		if err != nil || err2 != nil || n < 0 {
+			return "bad-op"
+		}
+		k, ok := r.parseKB(t[2])
+		if !ok {
+			return "bad-op"
+		}
+		r.dicts[n] = &c21Dict{d: containerdb.NewDictDB(r.st, int(d), k.kb), sem: k.semAppend(), depth: int(d)}
+		return "ok"
+	case "dgetdb":
+		if len(t) != 4 {
+			return "bad-op"
+		}
+		n2, err := strconv.Atoi(t[1])
+		n, err2 := strconv.Atoi(t[2])
+		if err != nil || err2 != nil || n2 < 0 || n < 0 {
+			return "bad-op"
+		}
+		ks, ok := c21Parts(t[3])
+		if !ok {
+			return "bad-op"
+		}
+		p, ok := r.dicts[n]
+		if !ok {
+			return "bad-op"
+		}
+		if p.d == nil {
+			return "nodb"
+		}
+		sub := p.d.GetDB(ks...)
+		o.Check((sub == nil) == (len(ks) >= p.depth), "dict-getdb-depth-check", "GetDB with %d keys on depth %d nil=%v", len(ks), p.depth, sub == nil)
+		r.dicts[n2] = &c21Dict{d: sub, sem: p.sem.semAppend(ks...), depth: p.depth - len(ks)}
+		o.Count("kept-subdict")
+		if sub == nil {
+			return "nodb"
+		}
+		return "ok"
+	case "sdget", "sdset", "sddel":
+		want := map[string]int{"sdget": 3, "sdset": 4, "sddel": 3}[t[0]]
+		if len(t) != want {
+			return "bad-op"
+		}
+		n, err := strconv.Atoi(t[1])
+		if err != nil || n < 0 {
+			return "bad-op"
+		}
+		ks, ok := c21Parts(t[2])
+		if !ok {
+			return "bad-op"
+		}
+		var part interface{}
+		if t[0] == "sdset" {
+			if part, ok = c21Part(t[3]); !ok {
+				return "bad-op"
+			}
+		}
+		p, ok := r.dicts[n]
+		if !ok {
+			return "bad-op"
+		}
+		if p.d == nil {
+			return "nodb"
+		}
+		e := p.sem.semAppend(ks...)
+		sid := e.id()
+		if e.class == "W" {
+			r.dirty = true // raw builders: slot identity is not the part list
+		}
+		good := len(ks) == p.depth
+		if good {
+			if prev, ok := r.slotOwner[sid]; ok && prev != "plain" {
+				r.dirty = true
+			} else {
+				r.slotOwner[sid] = "plain"
+			}
+		}
+		defer r.checkKept(o)
+		switch t[0] {
+		case "sdget":
+			got := p.d.Get(ks...)
+			if good && !r.dirty {
+				ref := r.refSlot[sid]
+				o.Check((got == nil) == (ref == nil) && (got == nil || bytes.Equal(got.Bytes(), ref)), "kept-dict-get-unexpected", "entry %s through a kept (sub)dictionary = %s, expected %s", sid, c21ShowValue(got), c21Show(ref))
+			}
+			if !good {
+				o.Check(got == nil, "dict-get-wrong-depth-not-nil", "Get with %d keys on depth %d returned a value", len(ks), p.depth)
+			}
+			return c21ShowValue(got)
+		case "sdset":
+			err := p.d.Set(append(append([]interface{}{}, ks...), part)...)
+			o.Check((err == nil) == good, "dict-set-depth-check", "Set with %d keys on depth %d: %v", len(ks), p.depth, err)
+			if err != nil {
+				return "err"
+			}
+			r.refSlot[sid] = append([]byte{}, containerdb.ToBytes(part)...)
+			return "ok"
+		default:
+			err := p.d.Delete(ks...)
+			o.Check((err == nil) == good, "dict-delete-depth-check", "Delete with %d keys on depth %d: %v", len(ks), p.depth, err)
+			if err != nil {
+				return "err"
+			}
+			delete(r.refSlot, sid)
+			return "ok"
+		}
+	}
 	// everything below takes a key builder as first argument
 	if t[0] == "dump" {
 		if len(t) != 1 {
@@ -415,11 +598,12 @@ func (r *c21Runner) Step(t []string, o *Oracle) string {
 			}
 		}
 	}
-	k, ok := c21ParseKB(t[1])
+	k, ok := r.parseKB(t[1])
 	if !ok {
 		return "bad-op"
 	}
 	o.Count("builder-" + strings.SplitN(k.class, ":", 2)[0])
+	defer r.checkKept(o)
 	switch t[0] {
 	case "build":
 		return hx(r.noteKey(k, o))
@@ -817,6 +1001,10 @@ func c21Gen(g *Gen) {
 	g.Emit("build Q/_")
 	g.Emit("tobytes z:1")
 	g.Emit("dset H/_ 1 _")
+	g.Emit("build @7")
+	g.Emit("kbnew x H/_")
+	g.Emit("sdget 3 _")
+	g.Emit("dgetdb 1 2 _")
 }
 
 func c21GenOne(g *Gen, x int) {
@@ -847,6 +1035,99 @@ func c21GenOne(g *Gen, x int) {
 			g.Emit("build %s", c21GenKB(g))
 		default:
 			c21GenCase(g)
+		}
+	}
+}
+
+// c21GenFamily: one parent builder kept alive, several children derived from it and kept
+// alive simultaneously (builders, containers on them, GetDB sub-dictionaries); every child
+// is used again after its siblings were derived.
+func c21GenFamily(g *Gen) {
+	parents := []string{"H/y:00", "H/y:01;s:6e", "H/_", "R/y:02", "R/s:6e616d65", "P/s:70", "P/s:70;y:01", "W/s:70", "N:0102/y:00", "N:/s:61",
+		"H/y:02;s:" + hx(g.Bytes(g.Intn(40))), "R/s:" + hx(g.Bytes(g.Intn(70)))}
+	g.Emit("kbnew 0 %s", parents[g.Intn(len(parents))])
+	if g.Intn(3) == 0 {
+		// a longer chain: the kept parent is itself a derived builder
+		g.Emit("kbnew 0 @0/%s", c21GenPart(g, true))
+	}
+	// sibling parts: mostly equal encoded length, all distinct
+	var sib []string
+	switch g.Intn(4) {
+	case 0:
+		sib = []string{"s:6161", "s:6262", "s:6363", "s:6464", "s:6565", "s:6666", "s:6767"}
+	case 1:
+		sib = []string{"i:1", "i:2", "i:3", "i:4", "i:5", "i:6", "i:7"}
+	case 2:
+		sib = []string{"s:61", "s:626262", "i:300", "s:63", "y:80", "s:6465", "i:70000"}
+	default:
+		for i := 0; i < 7; i++ {
+			sib = append(sib, fmt.Sprintf("s:%02x%s", i, hx(g.Bytes(1+g.Intn(3)))))
+		}
+	}
+	g.R.Shuffle(len(sib), func(i, j int) { sib[i], sib[j] = sib[j], sib[i] })
+	val := func() string { return "s:" + hx(g.Bytes(1+g.Intn(3))) }
+	// kept builders 1..4: two variables, two arrays
+	g.Emit("kbnew 1 @0/%s", sib[0])
+	g.Emit("vset @1 %s", val())
+	g.Emit("kbnew 2 @0/%s", sib[1])
+	g.Emit("build @1")
+	g.Emit("vset @2 %s", val())
+	g.Emit("vget @1")
+	g.Emit("kbnew 3 @0/%s", sib[2])
+	g.Emit("aput @3 %s", val())
+	g.Emit("kbnew 4 @0/%s", sib[3])
+	g.Emit("aput @4 %s", val())
+	g.Emit("aput @3 %s", val())
+	g.Emit("vget @1")
+	g.Emit("vget @2")
+	g.Emit("asize @3")
+	g.Emit("aget @3 1")
+	g.Emit("aget @4 0")
+	// a dictionary on the parent and two kept sub-dictionaries
+	depth := 2 + g.Intn(2)
+	g.Emit("dnew 5 @0 %d", depth)
+	g.Emit("dgetdb 6 5 %s", sib[4])
+	rest := func() string {
+		ps := make([]string, depth-1)
+		for i := range ps {
+			ps[i] = []string{"s:6b", "i:1", "b:1"}[i%3]
+		}
+		return strings.Join(ps, ";")
+	}
+	g.Emit("sdset 6 %s %s", rest(), val())
+	g.Emit("dgetdb 7 5 %s", sib[5])
+	g.Emit("sdset 7 %s %s", rest(), val())
+	g.Emit("sdget 6 %s", rest())
+	g.Emit("sdget 7 %s", rest())
+	g.Emit("sdget 5 %s;%s", sib[4], rest())
+	if depth == 3 {
+		g.Emit("dgetdb 8 6 s:6b")
+		g.Emit("dgetdb 9 6 s:6c")
+		g.Emit("sdset 8 b:1 %s", val())
+		g.Emit("sdget 9 b:1")
+		g.Emit("sdget 8 b:1")
+	}
+	// random further use of everything that is kept
+	for i := 4 + g.Intn(12); i > 0; i-- {
+		switch g.Intn(9) {
+		case 0:
+			g.Emit("build @%d", 1+g.Intn(4))
+		case 1:
+			g.Emit("vget @%d", 1+g.Intn(2))
+		case 2:
+			g.Emit("vset @%d %s", 1+g.Intn(2), val())
+		case 3:
+			g.Emit("aput @%d %s", 3+g.Intn(2), val())
+		case 4:
+			g.Emit("apop @%d", 3+g.Intn(2))
+		case 5:
+			g.Emit("kbnew %d @0/%s", 10+g.Intn(3), sib[6]) // yet another sibling
+		case 6:
+			g.Emit("sdget %d %s", 6+g.Intn(2), rest())
+		case 7:
+			g.Emit("sdset %d %s %s", 6+g.Intn(2), rest(), val())
+		default:
+			g.Emit("dget @0 %d %s;%s", depth, sib[4+g.Intn(2)], rest())
 		}
 	}
 }
@@ -888,6 +1169,9 @@ func c21GenCase(g *Gen) {
 	steps := 5 + g.Intn(40)
 	if g.Intn(12) == 0 {
 		steps += 140 + g.Intn(160) // long arrays: size crosses 127/128/255/256
+	}
+	if g.Intn(2) == 0 {
+		c21GenFamily(g)
 	}
 	for i := 0; i < steps; i++ {
 		c := cs[g.Intn(len(cs))]
